@@ -180,12 +180,26 @@ class Client(object):
         return ['default'] + list(acls or [])
 
     # -- reads -----------------------------------------------------------------------------
+    reads = 0
+    fail_read_at = None        # armed: the read with this index fails once with a lost connection
+    read_fault_fired = False
+
+    def _read(self):
+        n = self.reads
+        self.reads = n + 1
+        if self.fail_read_at is not None and n == self.fail_read_at:
+            self.fail_read_at = None
+            self.read_fault_fired = True
+            raise ke.ConnectionLoss()
+
     def exists(self, path, watch=None):
+        self._read()
         return self.store.stat(path) if path in self.store.nodes else None
 
     vanish_on_read = None      # a node that somebody else deletes right after this client's next read of it
 
     def get(self, path, watch=None):
+        self._read()
         if path not in self.store.nodes:
             raise ke.NoNodeError()
         out = self.store.nodes[path].data, self.store.stat(path)
@@ -196,6 +210,7 @@ class Client(object):
         return out
 
     def get_children(self, path, watch=None):
+        self._read()
         if path not in self.store.nodes:
             raise ke.NoNodeError()
         return self.store.children(path)
